@@ -12,10 +12,12 @@ open Nuts.C13 Nuts
 
 /-! ### Obligations on the regenerated facts -/
 
-/-- `Rollback` looks at changes older than one minute (`time.Now().Add(-time.Minute)`, `updated_at < ?`);
+/-- `Rollback` looks at changes older than one minute (`time.Now().Add(-time.Minute)`: the threshold lies in the PAST,
+    `updated_at < ?`: `oldChanges` = `ts + threshold < now`);
     the harness's clock steps (25 s / 70 s) and the oracle are written for this value -/
 theorem fact_sweep_threshold :
-    Facts.C13.sweepThresholdSeconds = 60 ∧ Facts.C13.sweepSelection = "updated_at < ?" := by decide
+    Facts.C13.sweepThresholdSeconds = 60 ∧ Facts.C13.sweepSelection = "updated_at < ?" ∧
+    Facts.C13.sweepThresholdDirection = "past" := by decide
 
 /-- `transactionHelper` = first transaction, then `range r.MethodManagers` calling `Commit` and breaking on the first
     error, then the clean-up transaction: the order `stepOp` models, with the map iteration order as an argument. There is
@@ -299,6 +301,29 @@ theorem naming_at_visit_depends_on_order :
     subjectAtVisit true "uuid" "did:nuts:1" [.web, .nuts] .web = "uuid" ∧
     subjectAtVisit true "uuid" "did:nuts:1" [.web, .nuts] .nuts = "did:nuts:1" ∧
     storedSubject true [.web, .nuts] "uuid" "did:nuts:1" .web = "did:nuts:1" := by decide
+
+/-- **the sweep does not touch young change records**: if no change record is older than the threshold the sweep changes
+    nothing (any mode, any order) — in particular a sweep that fires while an operation is IN FLIGHT, at most `threshold`
+    seconds after its first transaction and whatever it has published so far, is a no-op: it cannot pull the new versions
+    from under a publish that is about to succeed. (This is the step the assumption "no operation stays in flight longer
+    than the threshold" is about; beyond the threshold see the last example.) -/
+theorem sweep_ignores_young_records (ord : List Nat → List Nat) (hord : ∀ l, (ord l).Perm l) :
+    (∀ w : World, (∀ r ∈ w.dids, ∀ v ∈ r.vers, v.pending ≠ none → ¬ (v.ts + cfg.threshold < w.now)) →
+        sweep cfg ord w = (w, "ok")) ∧
+    (∀ (w0 w1 : World) (o : Op) (chs : List Change), (∀ r ∈ w0.dids, ∀ v ∈ r.vers, v.pending = none) →
+        tx1 cfg w0 o = .ok (w1, chs) → ∀ (pub : Nat → List Content) (d : Nat), d ≤ cfg.threshold →
+        sweep cfg ord (tick d { w1 with pub := pub }) = (tick d { w1 with pub := pub }, "ok")) :=
+  ⟨fun w hy => sweep_young_noop cfg ord hord w hy,
+   fun _ _ _ _ hnone ht pub d hd => in_flight_sweep_noop hnone ht pub d hd ord hord⟩
+
+/-- non-vacuity, and the other direction (witness): with the threshold in the FUTURE (`now + 60` instead of `now - 60`, i.e.
+    every record counts as old) the in-flight sweep deletes the unpublished versions: modelled by a sweep 61 s "late" -/
+example :
+    let cfg := cfgNow [.nuts, .web]
+    let w0 := (stepOp cfg {} (.create "s") [.nuts, .web] .none).1
+    ∃ w1 chs, tx1 cfg w0 (.addKey "s") = .ok (w1, chs) ∧ logCount w1 = 2 ∧
+      logCount (sweep cfg id (tick 60 w1)).1 = 2 ∧
+      (sweep cfg id (tick 61 w1)).1.dids.map (·.vers.length) = [1, 1] := ⟨_, _, rfl, by decide, by decide, by decide⟩
 
 /-- `Create` = existence check + write in ONE atomic step. Every interleaving of requests whose steps are atomic is a
     sequence of `stepOp`s, so `subject_unique` (over `Reach`) covers any number of concurrent Creates of one name:
